@@ -51,20 +51,26 @@ def lumped_index (spec):
     return idx
 # end def lumped_index
 
+def wire_ends (spec, g):
+    """ end points of a wire as handed to the program """
+    p1, p2 = list (g ['p1']), list (g ['p2'])
+    zn = spec.get ('znoise')
+    if zn and spec.get ('media') is not None:
+        # a ground end that is zero only up to rounding (coordinates that come out of a computation):
+        # far inside the matching tolerance, the reference geometry keeps the exact zero
+        if p1 [2] == 0:
+            p1 [2] = zn
+        if p2 [2] == 0:
+            p2 [2] = -zn if zn < 1e-15 else zn
+    return p1, p2
+# end def wire_ends
+
 def to_argv (spec, with_sources = True):
     a = ['-f', fl (spec ['f'])]
     for g in spec ['geo']:
         tag = [] if g.get ('tag') is None else [str (int (g ['tag']))]
         if g ['k'] == 'w':
-            p1, p2 = list (g ['p1']), list (g ['p2'])
-            zn = spec.get ('znoise')
-            if zn and spec.get ('media') is not None:
-                # a ground end that is zero only up to rounding (coordinates that come out of a computation):
-                # far inside the matching tolerance, the reference geometry keeps the exact zero
-                if p1 [2] == 0:
-                    p1 [2] = zn
-                if p2 [2] == 0:
-                    p2 [2] = -zn if zn < 1e-15 else zn
+            p1, p2 = wire_ends (spec, g)
             v = tag + [str (int (g ['n']))] + [fl (x) for x in p1] \
               + [fl (x) for x in p2] + [fl (g ['r'])]
             a += ['-w', ','.join (v)]
@@ -171,7 +177,8 @@ def build_api (spec, early_loads = False, late_sources = False, plain_list = Fal
     MM  = common.repo ()
     def obj (g):
         if g ['k'] == 'w':
-            return MM.Wire (int (g ['n']), *g ['p1'], *g ['p2'], g ['r'], tag = g.get ('tag'))
+            p1, p2 = wire_ends (spec, g)
+            return MM.Wire (int (g ['n']), *p1, *p2, g ['r'], tag = g.get ('tag'))
         if g ['k'] == 'a':
             return MM.Arc (int (g ['n']), g ['radius'], g ['a1'], g ['a2'], g ['r'], tag = g.get ('tag'))
         a = [g ['length'], g ['turn'], g ['r'], g ['rx1'], g ['ry1']]
